@@ -467,6 +467,50 @@ func (d *dt1) taintedUses(f *ssa.Function, v ssa.Value, label string, depth int)
 						}
 						continue
 					}
+					// a field of a local context struct (view.allTasks = ...): every read of that field, in this function
+					// or in the methods/helpers the struct is handed to, carries the taint on
+					if fa, ok := y.Addr.(*ssa.FieldAddr); ok {
+						if base := cellOf(fa.X); base != nil {
+							if _, isStruct := base.Type().Underlying().(*types.Pointer).Elem().Underlying().(*types.Struct); isStruct {
+								for _, alias := range cellAliases(base) {
+									arefs := alias.Referrers()
+									if arefs == nil {
+										continue
+									}
+									for _, ar := range *arefs {
+										fa2, ok := ar.(*ssa.FieldAddr)
+										if !ok || fa2.Field != fa.Field || fa2.Referrers() == nil {
+											continue
+										}
+										for _, lr := range *fa2.Referrers() {
+											ld, ok := lr.(*ssa.UnOp)
+											if !ok || ld.Op != token.MUL {
+												continue
+											}
+											if ld.Parent() == f {
+												follow(ld)
+												continue
+											}
+											key := fmt.Sprintf("field:%s@%d", ld.Parent().String(), ld.Pos())
+											ps, ok := d.paramMem[key]
+											if !ok {
+												d.paramMem[key] = &taintSummary{}
+												ps = d.taintedUses(ld.Parent(), ld, label+" (read back from "+fieldName(fa.X.Type(), fa.Field)+" in "+c.Name(ld.Parent())+")", depth+1)
+												d.paramMem[key] = ps
+											}
+											for _, p := range ps.problems {
+												observers = append(observers, use{y, p})
+											}
+											if ps.resultTainted {
+												observers = append(observers, use{y, "is stored into a structure whose field is returned by " + c.Name(ld.Parent())})
+											}
+										}
+									}
+								}
+								continue
+							}
+						}
+					}
 					observers = append(observers, use{y, "is stored into a structure"})
 				}
 			case *ssa.MapUpdate:
